@@ -72,6 +72,9 @@ func (c SkelCase) doc() ([]byte, bool) {
 		return nil, false
 	}
 	skel, ok := pubschema.Build(c.Path, leaf).(map[string]any)
+	if len(c.Path) == 0 {
+		skel, ok = map[string]any{}, true // the bare document: nothing but its $schema
+	}
 	if !ok {
 		return nil, false
 	}
@@ -109,6 +112,16 @@ func enumSkeletons(yield func(SkelCase) bool) {
 		}
 		short := pubschema.ShortID(id)
 		_, hasExample := exampleOf[short]
+		// the bare document of every published type, on its own and as the doc of an envelope
+		idx++
+		if idx%cfg.Shards == cfg.Shard {
+			if !yield(SkelCase{Schema: short, Value: json.RawMessage(`null`)}) {
+				return
+			}
+			if !yield(SkelCase{Schema: "envelope", Path: []string{"doc"}, Value: json.RawMessage(`{"$schema":"` + id + `"}`), InExample: true}) {
+				return
+			}
+		}
 		if !s.Paths(root, depth, func(path []string, leaf pubschema.Node) bool {
 			if path[0] == "[]" {
 				return true
@@ -162,6 +175,9 @@ func judgeSkeleton(c SkelCase, o *vh.Obs) {
 		return
 	}
 	o.Class(fmt.Sprintf("depth-%d", len(c.Path)-strings.Count(strings.Join(c.Path, "/"), "[]")))
+	if len(c.Path) == 0 {
+		o.Class("bare-document")
+	}
 	if c.InExample {
 		o.Class("in-example")
 	}
@@ -276,34 +292,7 @@ func judgeAbsent(c AbsentCase, o *vh.Obs) {
 	o.Class("absent-member")
 }
 
-// allMembers builds an instance of an object node with every declared member
-// present (lists with one element); depth limits the nesting.
-func allMembers(s *pubschema.Set, n pubschema.Node, depth int) any {
-	if s.Kind(n) != "object" || depth <= 0 {
-		return s.Sample(n, 0)
-	}
-	out := map[string]any{}
-	names, nodes := s.Props(n)
-	for _, name := range names {
-		if strings.HasPrefix(name, "$") {
-			continue
-		}
-		c := nodes[name]
-		switch s.Kind(c) {
-		case "array":
-			if it, ok := s.Items(c); ok {
-				out[name] = []any{allMembers(s, it, depth-1)}
-			}
-		case "map":
-			out[name] = map[string]any{"abc": "ABC"}
-		case "object":
-			out[name] = allMembers(s, c, depth-1)
-		default:
-			out[name] = s.Sample(c, 0)
-		}
-	}
-	return out
-}
+func allMembers(s *pubschema.Set, n pubschema.Node, depth int) any { return s.AllMembers(n, depth) }
 
 // fuzzSeedsFromSchemas gives the fuzzer one small document per published type
 // with every declared member present (lists with one element), so that
